@@ -300,7 +300,36 @@ func (c *Ctx) ruleRetryRequeue(rr *RuleRep, rr18 *RuleRep, modeOpt ...string) {
 		if !Dominated(f, lastExitOf(f, region), func(in ssa.Instruction) bool { return in == ssa.Instruction(st) }, PathQ{BlockEdge: func(b *ssa.BasicBlock, k int) bool { return false }}) {
 			// store not on every path of the failure region
 		}
-		seq = append(seq, elems...)
+		// what is put back may have been collected in a local first (`pending = append(pending, handle); pending =
+		// append(pending, rest...)` in an extracted loop, `c.retryQueue = append(c.retryQueue, pending...)` after it): the
+		// local as it is on the paths through the failure edge, taken apart like the queue's own appends
+		var flat []appendElem
+		for _, e := range elems {
+			if e.Spread == nil {
+				// the handle travelling in a result variable of an extracted step (`rest := p.next(…); if rest != nil { … }`)
+				if phi, isPhi := c.Resolve(e.Single).(*ssa.Phi); isPhi && phi.Parent() == f {
+					if vs, reached := valuesAlong(f, *failEdge, st, phi, nil); reached && len(vs) == 1 {
+						e.Single = vs[0]
+					}
+				}
+				flat = append(flat, e)
+				continue
+			}
+			sv := e.Spread
+			if phi, isPhi := c.Resolve(sv).(*ssa.Phi); isPhi && phi.Parent() == f {
+				if vs, reached := valuesAlong(f, *failEdge, st, phi, nil); reached && len(vs) == 1 {
+					sv = vs[0]
+				}
+			}
+			if _, _, isTail := tailOf(sv); !isTail {
+				if b2, el2, ok2 := c.appendChain(sv); ok2 && len(el2) > 0 && (b2 == nil || isNilConst(c.Resolve(b2)) || c.isFreshEmptySlice(b2)) {
+					flat = append(flat, el2...)
+					continue
+				}
+			}
+			flat = append(flat, e)
+		}
+		seq = append(seq, flat...)
 	}
 	if !okChain {
 		if len(stores) > 0 {
